@@ -281,15 +281,15 @@ func runC01(c *eng.Ctx, thorough bool) {
 	// ---------- C01.4 logical.Storage methods funnel
 	c.Clause("R8", "C01.4")
 	funnel := map[string]string{
-		"barrier.(*AESGCMBarrier).Put":                `barrier\.\(\*AESGCMBarrier\)\.putWithBackend$`,
-		"barrier.(*AESGCMBarrier).Get":                `barrier\.\(\*AESGCMBarrier\)\.lockSwitchedGet$`,
-		"barrier.(*AESGCMBarrier).Delete":             `barrier\.\(\*AESGCMBarrier\)\.deleteWithBackend$`,
-		"barrier.(*AESGCMBarrier).ListPage":           `barrier\.\(\*AESGCMBarrier\)\.listPageWithBackend$`,
-		"barrier.(*AESGCMBarrierTransaction).Put":     `barrier\.\(\*AESGCMBarrier\)\.putWithBackend$`,
-		"barrier.(*AESGCMBarrierTransaction).Get":     `barrier\.\(\*AESGCMBarrier\)\.lockSwitchedGet$`,
-		"barrier.(*AESGCMBarrierTransaction).Delete":  `barrier\.\(\*AESGCMBarrier\)\.deleteWithBackend$`,
+		"barrier.(*AESGCMBarrier).Put":                 `barrier\.\(\*AESGCMBarrier\)\.putWithBackend$`,
+		"barrier.(*AESGCMBarrier).Get":                 `barrier\.\(\*AESGCMBarrier\)\.lockSwitchedGet$`,
+		"barrier.(*AESGCMBarrier).Delete":              `barrier\.\(\*AESGCMBarrier\)\.deleteWithBackend$`,
+		"barrier.(*AESGCMBarrier).ListPage":            `barrier\.\(\*AESGCMBarrier\)\.listPageWithBackend$`,
+		"barrier.(*AESGCMBarrierTransaction).Put":      `barrier\.\(\*AESGCMBarrier\)\.putWithBackend$`,
+		"barrier.(*AESGCMBarrierTransaction).Get":      `barrier\.\(\*AESGCMBarrier\)\.lockSwitchedGet$`,
+		"barrier.(*AESGCMBarrierTransaction).Delete":   `barrier\.\(\*AESGCMBarrier\)\.deleteWithBackend$`,
 		"barrier.(*AESGCMBarrierTransaction).ListPage": `barrier\.\(\*AESGCMBarrier\)\.listPageWithBackend$`,
-		"barrier.(*AESGCMBarrier).putWithBackend":     `barrier\.\(\*AESGCMBarrier\)\.putInternal$`,
+		"barrier.(*AESGCMBarrier).putWithBackend":      `barrier\.\(\*AESGCMBarrier\)\.putInternal$`,
 	}
 	for fn, via := range funnel {
 		f := c.Fn(fn)
@@ -356,35 +356,35 @@ func runC01(c *eng.Ctx, thorough bool) {
 		}
 	}
 	table := map[string]string{
-		"vault.(*directStorageAccess).Put":                   "the sanctioned raw accessor for seal configuration (constructors tabled below)",
-		"vault.(*directStorageAccess).Delete":                "the sanctioned raw accessor for seal configuration",
-		"vault.writeStoredKeys":                              "seal-wrapped stored barrier keys (StoredBarrierKeysPath)",
-		"vault.(*autoSeal).SetRecoveryKey":                   "seal-wrapped recovery key (recoveryKeyPath)",
-		"vault.(*Core).BarrierRekeyUpdate":                   "PGP-encrypted unseal key backup (coreBarrierUnsealKeysBackupPath)",
-		"vault.(*Core).RecoveryRekeyUpdate":                  "PGP-encrypted recovery key backup (coreRecoveryUnsealKeysBackupPath)",
-		"vault.(*Core).RekeyDeleteBackup":                    "deletes the two key backups",
-		"vault.(*Core).migrateSealConfig":                    "deletes the recovery seal configuration during seal migration",
+		"vault.(*directStorageAccess).Put":                      "the sanctioned raw accessor for seal configuration (constructors tabled below)",
+		"vault.(*directStorageAccess).Delete":                   "the sanctioned raw accessor for seal configuration",
+		"vault.writeStoredKeys":                                 "seal-wrapped stored barrier keys (StoredBarrierKeysPath)",
+		"vault.(*autoSeal).SetRecoveryKey":                      "seal-wrapped recovery key (recoveryKeyPath)",
+		"vault.(*Core).BarrierRekeyUpdate":                      "PGP-encrypted unseal key backup (coreBarrierUnsealKeysBackupPath)",
+		"vault.(*Core).RecoveryRekeyUpdate":                     "PGP-encrypted recovery key backup (coreRecoveryUnsealKeysBackupPath)",
+		"vault.(*Core).RekeyDeleteBackup":                       "deletes the two key backups",
+		"vault.(*Core).migrateSealConfig":                       "deletes the recovery seal configuration during seal migration",
 		"vault.(*SystemBackend).handleStorageRaftSnapshotWrite": "raft bootstrap data: leader lock after snapshot restore (CoreLockPath)",
-		"vault.(*UIConfig).save":                             "FINDING: plaintext copy of the UI header configuration",
-		"command.SetStorageMigration":                        "storage migration marker written by the CLI before the server starts (storageMigrationLock)",
-		"command.(*OperatorMigrateCommand).migrateAll":       "offline `operator migrate`: copies already-encrypted records verbatim between backends",
-		"vault/diagnose.EndToEndLatencyCheckWrite":           "offline `operator diagnose`: latency probe record",
-		"vault/diagnose.EndToEndLatencyCheckDelete":          "offline `operator diagnose`: latency probe record",
-		"logical.(*LogicalStorage).Put":                      "sdk adaptor physical->logical (constructor callers tabled below)",
-		"logical.(*LogicalStorage).Delete":                   "sdk adaptor physical->logical",
-		"logical.(*InmemStorage).Put":                        "sdk in-memory test storage",
-		"logical.(*InmemStorage).Delete":                     "sdk in-memory test storage",
+		"vault.(*UIConfig).save":                                "FINDING: plaintext copy of the UI header configuration",
+		"command.SetStorageMigration":                           "storage migration marker written by the CLI before the server starts (storageMigrationLock)",
+		"command.(*OperatorMigrateCommand).migrateAll":          "offline `operator migrate`: copies already-encrypted records verbatim between backends",
+		"vault/diagnose.EndToEndLatencyCheckWrite":              "offline `operator diagnose`: latency probe record",
+		"vault/diagnose.EndToEndLatencyCheckDelete":             "offline `operator diagnose`: latency probe record",
+		"logical.(*LogicalStorage).Put":                         "sdk adaptor physical->logical (constructor callers tabled below)",
+		"logical.(*LogicalStorage).Delete":                      "sdk adaptor physical->logical",
+		"logical.(*InmemStorage).Put":                           "sdk in-memory test storage",
+		"logical.(*InmemStorage).Delete":                        "sdk in-memory test storage",
 	}
 	c.CallerTable("physical.Backend.Put/Delete outside the storage layers", rawSites, table, 14)
 	// key provenance per row
 	c.Clause("R5", "C01.5")
 	keyConst := map[string][]string{
-		"vault.writeStoredKeys":                              {`^const:"core/hsm/barrier-unseal-keys"$`, `^param:metaPrefix$`},
-		"vault.(*autoSeal).SetRecoveryKey":                   {`^const:"core/recovery-key"$`, `^field:d\.metaPrefix$`},
-		"vault.(*Core).BarrierRekeyUpdate":                   {`^const:"core/unseal-keys-backup"$`},
-		"vault.(*Core).RecoveryRekeyUpdate":                  {`^const:"core/recovery-keys-backup"$`},
+		"vault.writeStoredKeys":                                 {`^const:"core/hsm/barrier-unseal-keys"$`, `^param:metaPrefix$`},
+		"vault.(*autoSeal).SetRecoveryKey":                      {`^const:"core/recovery-key"$`, `^field:d\.metaPrefix$`},
+		"vault.(*Core).BarrierRekeyUpdate":                      {`^const:"core/unseal-keys-backup"$`},
+		"vault.(*Core).RecoveryRekeyUpdate":                     {`^const:"core/recovery-keys-backup"$`},
 		"vault.(*SystemBackend).handleStorageRaftSnapshotWrite": {`^const:"core/lock"$`},
-		"command.SetStorageMigration":                        {`^const:"core/migration"$`},
+		"command.SetStorageMigration":                           {`^const:"core/migration"$`},
 	}
 	delConst := map[string][]string{
 		"vault.(*Core).RekeyDeleteBackup": {`^const:"core/(unseal|recovery)-keys-backup"$`},
@@ -448,11 +448,11 @@ func runC01(c *eng.Ctx, thorough bool) {
 	if fv := c.P.Field("vault.directStorageAccess.physical"); fv != nil {
 		ws := c.P.FieldWriters(fv)
 		allowed := map[string]string{
-			"vault.NewDefaultSeal":                  "Shamir seal: barrier/recovery seal configuration",
-			"vault.NewAutoSeal":                     "auto seal: barrier/recovery seal configuration",
-			"vault.(*defaultSeal).SetCore":          "Shamir seal: seal configuration accessor",
-			"vault.(*autoSeal).SetCore":             "auto seal: seal configuration accessor",
-			"vault.(*RawBackend).storageByPath":     "sys/raw on the two seal-configuration paths only (guarded below)",
+			"vault.NewDefaultSeal":              "Shamir seal: barrier/recovery seal configuration",
+			"vault.NewAutoSeal":                 "auto seal: barrier/recovery seal configuration",
+			"vault.(*defaultSeal).SetCore":      "Shamir seal: seal configuration accessor",
+			"vault.(*autoSeal).SetCore":         "auto seal: seal configuration accessor",
+			"vault.(*RawBackend).storageByPath": "sys/raw on the two seal-configuration paths only (guarded below)",
 		}
 		for _, w := range ws {
 			n := eng.FuncName(eng.TopFunc(w.Fn))
@@ -499,4 +499,3 @@ func reQuote(s string) string {
 	r := strings.NewReplacer(`\`, `\\`, `.`, `\.`, `(`, `\(`, `)`, `\)`, `[`, `\[`, `]`, `\]`, `*`, `\*`, `+`, `\+`, `?`, `\?`, `{`, `\{`, `}`, `\}`, `|`, `\|`, `^`, `\^`, `$`, `\$`)
 	return r.Replace(s)
 }
-
